@@ -6,7 +6,7 @@ import gram
 from impl import trees, grammar, grammaranalysis, quiet, clone
 
 ID = "C06"
-MODULE = ['TT.Props.C06', 'TT.Props.C06More']
+MODULE = ['TT.Props.C06', 'TT.Props.C06More', 'TT.Props.C06Count']
 RULE = ("random treebanks of 1..5 well-formed trees (any gap pattern, unary nodes, repeated labels among siblings, "
         "repeated identical trees so that counts exceed 1); the extracted dicts are compared with the model and "
         "checked against the node-level specification (rule instantiation reproduces the node's blocks, counts, "
